@@ -963,6 +963,20 @@ def _run_http_producer_turn(
     externalization_enabled = (
         app._server.external_config is not None and app._server.external_config.storage is not None
     )
+
+    def _body_bytes() -> int:
+        """Bytes of this turn's body as it stands on the wire.
+
+        With a negotiated codec the IPC stream is written through
+        ``pa.CompressedOutputStream``, which holds its output back until it has a
+        full block (~128 KiB for zstd): ``resp_buf.tell()`` then stays near 0 and
+        the cap below would not end the turn.  Flushing the codec first makes the
+        buffer's position the real body size.
+        """
+        if write_sink is not resp_buf:
+            write_sink.flush()
+        return int(resp_buf.tell())
+
     with new_ipc_stream(write_sink, schema) as writer:
         if sink is not None:
             sink.flush_contents(writer, schema)
@@ -1008,7 +1022,7 @@ def _run_http_producer_turn(
         try:
             while True:
                 # Snapshot the budgets remaining at the start of this iteration.
-                remaining_wire = None if max_bytes is None else max(0, max_bytes - resp_buf.tell())
+                remaining_wire = None if max_bytes is None else max(0, max_bytes - _body_bytes())
                 remaining_external = (
                     None
                     if max_external_bytes is None or not externalization_enabled
@@ -1086,7 +1100,7 @@ def _run_http_producer_turn(
                 # break after every produce cycle so the client receives
                 # data incrementally.  When ``max_bytes`` is configured,
                 # buffer multiple batches until the HTTP body fills the cap.
-                should_continue = max_bytes is not None and resp_buf.tell() < max_bytes
+                should_continue = max_bytes is not None and _body_bytes() < max_bytes
                 if not should_continue:
                     # Serialize the cursor into a continuation token.  Only the
                     # cursor: the call token was minted at /init and either the
